@@ -337,7 +337,10 @@ pub fn start_watchdog(secs: u64) {
                 return;
             }
             let now: Vec<u64> = HEARTBEAT.iter().map(|h| h.load(Ordering::Relaxed)).collect();
-            if now == last {
+            // only calls into the subject can hang: outside of sweeps (scenario construction,
+            // evidence writing) no item is in flight and the stall counter does not run
+            let in_flight = CUR_ITEM.iter().any(|c| c.load(Ordering::Relaxed) > 0);
+            if now == last && in_flight {
                 stale += 1;
             } else {
                 stale = 0;
